@@ -54,6 +54,15 @@ def runLine (line : String) : String :=
     match inputOf h, a.toNat?, b.toNat? with
     | some s, some a, some b => runCS s a b
     | _, _, _ => "bad-op"
+  | ["CG", h, a, b, x, y] =>
+    match inputOf h, a.toNat?, b.toNat?, x.toNat?, y.toNat? with
+    | some s, some a, some b, some x, some y =>
+      if spanNew s a b then
+        match spanGet s a b x y with
+        | some (p, q) => s!"some {p}-{q}"
+        | none => "none"
+      else "nospan"
+    | _, _, _, _, _ => "bad-op"
   | _ => "bad-op"
 
 end PestModel.LineColDriver
